@@ -46,6 +46,19 @@ func allMonitors() []Monitor {
 	return m
 }
 
+// Scenario is a directed workload segment that runs at the start of a history (after setup, before the random operations)
+// when the check of its property runs: every history, or the histories with index%Every == Phase. Files register theirs in init().
+type Scenario struct {
+	Prop, Name   string
+	Every, Phase int
+	Fn           func(h *Hist, mons []Monitor)
+}
+
+var scenarioRegistry []Scenario
+
+// RegisterScenario adds a directed scenario.
+func RegisterScenario(s Scenario) { scenarioRegistry = append(scenarioRegistry, s) }
+
 // focus tags per property: ops carrying one of these tags get a higher weight
 var focusTags = map[string][]string{
 	"C01": {"core", "faucet", "miner", "storage", "vesting", "zcn", "multisig"},
@@ -205,6 +218,11 @@ func childMain(prop, tier string, idx, nh, nl int) (code int) {
 		}
 		if prop == "C07" && j%2 == 1 {
 			partsScenarioC07(h, mons)
+		}
+		for _, sc := range scenarioRegistry {
+			if sc.Prop == prop && (sc.Every <= 1 || j%sc.Every == sc.Phase) {
+				sc.Fn(h, mons)
+			}
 		}
 		for k := 0; k < nl; k++ {
 			op := ops[r.Pick(wts)]
